@@ -410,10 +410,11 @@ def check_concurrent_first_use():
         t1.start()
         import time
         deadline = time.time() + 5
-        while name not in sys.modules and time.time() < deadline:
+        # (the module object is in sys.modules before its body has run: wait for the body to get going)
+        while not hasattr(sys.modules.get(name), 'entered') and time.time() < deadline:
             time.sleep(0.001)
         mod = sys.modules.get(name)
-        if mod is None or not mod.entered.wait(5):
+        if mod is None or not hasattr(mod, 'entered') or not mod.entered.wait(5):
             return 'the module was never imported'
         t2 = threading.Thread(target=use, args=('2',), daemon=True)
         t2.start()
